@@ -317,8 +317,8 @@ func (x *Explorer) Explore(run func(c *Ctx), visit func(c *Ctx) bool) ExploreSta
 		parent *parentRec
 		i, alt int
 	}
-	const maxFrontierBytes = 1200 << 20 // pick sequences + nodes held by the frontier
-	const maxCache = 3_000_000
+	const maxFrontierBytes = 384 << 20 // pick sequences + nodes held by the frontier
+	const maxCache = 2_000_000
 	frontierBytes := 0
 	incompleteFrom := 1 << 30
 	levels := [][]node{{{alt: -1}}}
